@@ -61,6 +61,9 @@ type FS struct {
 	FailAt    int
 	// Blocked: paths at which no file can ever be opened or created (a directory sits there).
 	Blocked map[string]bool
+	// SlowAt/Slow: the SlowAt-th faultable call (1-based) first runs Slow (typically a virtual sleep).
+	SlowAt int
+	Slow   func()
 	faultable int
 	// ShortWrite makes an injected write failure write the first half of the data.
 	ShortWrite bool
@@ -109,6 +112,9 @@ func (f *FS) Paths() []string {
 
 func (f *FS) fault(kind string) bool {
 	f.faultable++
+	if f.SlowAt != 0 && f.faultable == f.SlowAt && f.Slow != nil {
+		f.Slow() // a slow disk: the harness lets virtual time pass inside this call
+	}
 	return f.FailAt != 0 && f.faultable == f.FailAt
 }
 
